@@ -261,6 +261,30 @@ def rule_u(ck, F):
     if resz == {'predictor_vectors': ('capacity(predictor_vectors)', 'repeat(zero(), 4)'), 'macroblock_types': ('capacity(macroblock_types)', 'Inter()')}:
         ck.ok('U', 'early end: both lists are filled up to their capacity with zero vectors / Inter', where_of(b))
     else: ck.violation('U', 'U : decode_next_picture : early end', where_of(b), 'resize calls: %s' % resz)
+    # .. and each list is filled whenever IT is short: the fill is unconditional, or guarded by `len(list) < capacity(list)` of the same list
+    ga_ = [bb for bb, t in g.calls() if F.callee_name(t).endswith('gather::gather')]
+    base = guards(T, ga_[0]) if ga_ else set()
+    for bb, a in calls('::resize'):
+        lst = a[0]
+        own = guards(T, bb) - base
+        terms = [truth_of(*guard_term(T, N, x, s_)) for x, s_ in sorted(own)]
+        want = (('f', 'Lt', ('f', 'len', lst), ('f', 'capacity', lst)), True)
+        alt = (('f', 'Gt', ('f', 'capacity', lst), ('f', 'len', lst)), True)
+        # the two lists grow together (one push each per macroblock) and have the same capacity: a test on either list is the same test, as long as the
+        # list it measures has not been filled yet when it is evaluated
+        both = {('v', 'predictor_vectors'), ('v', 'macroblock_types')}
+        okg_ = not terms or terms in ([want], [alt])
+        if not okg_ and len(terms) == 1 and terms[0] is not None and terms[0][1] is True and len(own) == 1:
+            t0 = terms[0][0]; gblk = sorted(own)[0][0]
+            shape = None
+            if t0[0] == 'f' and t0[1] == 'Lt' and t0[2][:2] == ('f', 'len') and t0[3][:2] == ('f', 'capacity'): shape = (t0[2][2], t0[3][2])
+            if t0[0] == 'f' and t0[1] == 'Gt' and t0[3][:2] == ('f', 'len') and t0[2][:2] == ('f', 'capacity'): shape = (t0[3][2], t0[2][2])
+            if shape and shape[0] in both and shape[1] in both and lst in both:
+                filled_before = [rb for rb, ra in calls('::resize') if ra[0] == shape[0] and gblk in g.reachable_from([rb])]
+                okg_ = not filled_before
+        if okg_: ck.ok('U', 'early end: %s is filled whenever it is shorter than its capacity' % show(lst), where_of(b, bb))
+        else: ck.violation('U', 'U : decode_next_picture : early end guard of %s' % show(lst), where_of(b, bb), '%s.resize(..) runs under %s; expected unconditionally or under len(%s) < capacity(%s)' % (
+            show(lst), [(show(t_[0]), t_[1]) if t_ else None for t_ in terms], show(lst), show(lst)))
     caps = [show(a[0]) for bb, a in calls('::with_capacity')]
     ga = calls('gather::gather'); idct = calls('idct::idct_channel'); loopcalls = [bb for bb, t in g.calls() if F.callee_name(t).endswith('macroblock::decode_macroblock')]
     okc = len(ga) == 1 and len(set(caps)) == 1 and len(caps) == 2
@@ -349,6 +373,14 @@ def run(ck, F, tier):
         getattr(c12, fn)(s12, F)
     s10 = Scoped(ck, 'C10.')
     c10.rule_c(s10, F)
+    c10.rule_a(s10, F); c10.rule_b(s10, F); c10.rule_e(s10, F)
+    # "plus the reconstructed residual": dequantisation and zig-zag placement (C11 A, P), the call-site agreement of decode_block / inverse_rle / idct_channel and
+    # quantizer tracking (C02 D, H); and the header of a predicted picture parsed as the standard lays it out (C06, whole)
+    from . import c11, c02, c06
+    s11 = Scoped(ck, 'C11.')
+    c11.a_formula(s11, F); c11.p_zigzag_cursor(s11, F)
+    c02.rule_d(Scoped(ck, 'C02.'), F)
+    c06.run(Scoped(ck, 'C06.'), F, tier)
     # the bits of an inter macroblock are attributed to the right syntax elements (COD, MCBPC Table 8, CBPY complemented, DQUANT, MVD, MVD2-4, TCOEF)
     from . import mblayer
     mblayer.run_for(ck, F, 'MB.', ['tcoef', 'mcbpc_p', 'cbpy'], ['macroblock', 'mv', 'block'])
